@@ -72,11 +72,16 @@ pub struct OdsCell {
     /// emitted verbatim instead of everything above (for exotic encodings); `repeat` still says how many
     /// columns the element stands for
     pub raw: Option<String>,
+    /// an `office:annotation` child (a cell comment) with this text, written before the paragraphs
+    pub annotation: Option<String>,
+    /// further attributes written verbatim after the element name, e.g. ` table:style-name="ce1"`
+    /// (leading space included); must not be value attributes
+    pub extra_attrs: String,
 }
 
 impl OdsCell {
     pub fn new(val: OdsVal) -> OdsCell {
-        OdsCell { val, formula: None, repeat: None, covered: false, display: None, span: None, self_closing: true, raw: None }
+        OdsCell { val, formula: None, repeat: None, covered: false, display: None, span: None, self_closing: true, raw: None, annotation: None, extra_attrs: String::new() }
     }
     pub fn empty() -> OdsCell {
         OdsCell::new(OdsVal::Empty)
@@ -125,6 +130,7 @@ impl OdsCell {
         let tag = if self.covered { "table:covered-table-cell" } else { "table:table-cell" };
         out.push('<');
         out.push_str(tag);
+        out.push_str(&self.extra_attrs);
         if let Some(k) = self.repeat {
             out.push_str(&format!(" table:number-columns-repeated=\"{k}\""));
         }
@@ -135,6 +141,11 @@ impl OdsCell {
             out.push_str(&format!(" table:formula=\"{}\"", escape_attr(f)));
         }
         let mut body = String::new();
+        if let Some(a) = &self.annotation {
+            body.push_str("<office:annotation office:name=\"__Annotation__1\"><dc:date>2021-01-01T00:00:00</dc:date><text:p>");
+            body.push_str(&escape_text(a));
+            body.push_str("</text:p></office:annotation>");
+        }
         match &self.val {
             OdsVal::Empty => {}
             OdsVal::Float(f) => out.push_str(&format!(" office:value-type=\"float\" office:value=\"{}\"", fmt_f64(*f))),
@@ -180,11 +191,43 @@ pub struct RowRun {
     /// `None`: no `table:number-rows-repeated` attribute (one row); `Some(k)`: the attribute with value `k`
     pub repeat: Option<usize>,
     pub cells: Vec<OdsCell>,
+    /// row container elements opened immediately before this row (outermost first); they stay open until a
+    /// later row's `close` (or the end of the table, where the writer closes what is still open)
+    pub open: Vec<RowWrap>,
+    /// number of open row containers closed immediately after this row (innermost first)
+    pub close: usize,
+    /// `table:visibility="…"` (`collapse`, `filter`, `visible`)
+    pub visibility: Option<String>,
+    /// a `<text:soft-page-break/>` element before the row
+    pub soft_break_before: bool,
+    /// further attributes written verbatim (leading space included), e.g. ` table:style-name="ro1"`
+    pub extra_attrs: String,
+}
+
+/// Elements of ODF 1.2 that merely group rows (none of them changes any cell position)
+#[derive(Clone, Copy, Debug, PartialEq, Eq)]
+pub enum RowWrap {
+    /// `table:table-row-group` (outline group; may nest and may contain the two below)
+    Group,
+    /// `table:table-header-rows`
+    HeaderRows,
+    /// `table:table-rows`
+    Rows,
+}
+
+impl RowWrap {
+    pub fn tag(self) -> &'static str {
+        match self {
+            RowWrap::Group => "table:table-row-group",
+            RowWrap::HeaderRows => "table:table-header-rows",
+            RowWrap::Rows => "table:table-rows",
+        }
+    }
 }
 
 impl RowRun {
     pub fn new(cells: Vec<OdsCell>) -> RowRun {
-        RowRun { repeat: None, cells }
+        RowRun { repeat: None, cells, open: vec![], close: 0, visibility: None, soft_break_before: false, extra_attrs: String::new() }
     }
     pub fn times(mut self, k: usize) -> RowRun {
         self.repeat = Some(k);
@@ -193,8 +236,16 @@ impl RowRun {
     pub fn count(&self) -> usize {
         self.repeat.unwrap_or(1)
     }
+    /// the row element alone (without its `open` / `close` containers)
     pub fn xml(&self, out: &mut String) {
+        if self.soft_break_before {
+            out.push_str("<text:soft-page-break/>");
+        }
         out.push_str("<table:table-row");
+        out.push_str(&self.extra_attrs);
+        if let Some(v) = &self.visibility {
+            out.push_str(&format!(" table:visibility=\"{}\"", escape_attr(v)));
+        }
         if let Some(k) = self.repeat {
             out.push_str(&format!(" table:number-rows-repeated=\"{k}\""));
         }
@@ -214,6 +265,56 @@ pub struct OdsSheet {
     pub display: Option<bool>,
     /// write `<table:table-column …/>` declarations before the rows (ignored by calamine)
     pub columns_decl: Option<usize>,
+    /// verbatim XML right after the `<table:table …>` start tag, before the rows: `table:table-source`,
+    /// `office:forms`, `table:shapes`, column declarations with their `table:table-columns` /
+    /// `table:table-header-columns` / `table:table-column-group` wrappers (see `columns_xml`)
+    pub prelude: String,
+    /// verbatim XML after the last row, before `</table:table>` (sheet-local `table:named-expressions`,
+    /// `calcext:conditional-formats` …)
+    pub postlude: String,
+    /// further attributes of the `table:table` element, verbatim with leading space (` table:protected="true"`)
+    pub extra_attrs: String,
+}
+
+/// Column declarations for `n` columns in one of the legal ODF shapes; `shape` is taken modulo the number of
+/// shapes: plain repeated column, several columns, `table:table-columns`, `table:table-header-columns` followed
+/// by plain columns, nested `table:table-column-group`s, and a mixture with hidden columns and cell styles.
+pub fn columns_xml(shape: usize, n: usize) -> String {
+    let n = n.max(1);
+    let col = |k: usize, extra: &str| {
+        if k == 1 {
+            format!("<table:table-column table:style-name=\"co1\"{extra}/>")
+        } else {
+            format!("<table:table-column table:style-name=\"co1\" table:number-columns-repeated=\"{k}\"{extra}/>")
+        }
+    };
+    let (a, b) = (n.div_ceil(2), n / 2);
+    let second = if b > 0 { col(b, "") } else { String::new() };
+    match shape % 6 {
+        0 => col(n, ""),
+        1 => format!("{}{}", col(a, " table:default-cell-style-name=\"Default\""), second),
+        2 => format!("<table:table-columns>{}{}</table:table-columns>", col(a, ""), second),
+        3 => format!("<table:table-header-columns>{}</table:table-header-columns>{}", col(a, ""), second),
+        4 => format!(
+            "<table:table-column-group><table:table-column-group table:display=\"false\">{}</table:table-column-group>{}</table:table-column-group>",
+            col(a, " table:visibility=\"collapse\""),
+            second
+        ),
+        _ => format!(
+            "<table:table-column-group><table:table-header-columns>{}</table:table-header-columns><table:table-columns>{}</table:table-columns></table:table-column-group>{}",
+            col(1, ""),
+            col(a, ""),
+            second
+        ),
+    }
+}
+
+/// A `table:shapes` element (drawing objects anchored to the sheet) holding a text box with a paragraph
+pub fn shapes_xml(text: &str) -> String {
+    format!(
+        "<table:shapes><draw:frame draw:z-index=\"0\" svg:width=\"3cm\" svg:height=\"1cm\" svg:x=\"1cm\" svg:y=\"1cm\"><draw:text-box><text:p>{}</text:p></draw:text-box></draw:frame></table:shapes>",
+        escape_text(text)
+    )
 }
 
 /// sparse expansion of a sheet: `(row, col) -> (value, formula)`, entries only where the value or the
@@ -222,7 +323,7 @@ pub type Grid = BTreeMap<(u64, u64), (Data, String)>;
 
 impl OdsSheet {
     pub fn new(name: &str, rows: Vec<RowRun>) -> OdsSheet {
-        OdsSheet { name: name.to_string(), rows, display: None, columns_decl: None }
+        OdsSheet { name: name.to_string(), rows, display: None, columns_decl: None, prelude: String::new(), postlude: String::new(), extra_attrs: String::new() }
     }
     /// Semantic expansion of the runs. Blank runs are skipped without being enumerated, so huge blank
     /// repeats are cheap; a repeated non-blank row/cell is enumerated.
@@ -268,7 +369,13 @@ const NS: &str = "xmlns:office=\"urn:oasis:names:tc:opendocument:xmlns:office:1.
 xmlns:style=\"urn:oasis:names:tc:opendocument:xmlns:style:1.0\" \
 xmlns:text=\"urn:oasis:names:tc:opendocument:xmlns:text:1.0\" \
 xmlns:table=\"urn:oasis:names:tc:opendocument:xmlns:table:1.0\" \
-xmlns:of=\"urn:oasis:names:tc:opendocument:xmlns:of:1.2\"";
+xmlns:of=\"urn:oasis:names:tc:opendocument:xmlns:of:1.2\" \
+xmlns:draw=\"urn:oasis:names:tc:opendocument:xmlns:drawing:1.0\" \
+xmlns:svg=\"urn:oasis:names:tc:opendocument:xmlns:svg-compatible:1.0\" \
+xmlns:form=\"urn:oasis:names:tc:opendocument:xmlns:form:1.0\" \
+xmlns:dc=\"http://purl.org/dc/elements/1.1/\" \
+xmlns:xlink=\"http://www.w3.org/1999/xlink\" \
+xmlns:calcext=\"urn:org:documentfoundation:names:experimental:calc:xmlns:calcext:1.0\"";
 
 pub const MIMETYPE: &str = "application/vnd.oasis.opendocument.spreadsheet";
 
@@ -296,13 +403,29 @@ impl OdsBook {
             if s.display.is_some() {
                 x.push_str(&format!(" table:style-name=\"ta{}\"", i + 1));
             }
+            x.push_str(&s.extra_attrs);
             x.push('>');
+            x.push_str(&s.prelude);
             if let Some(n) = s.columns_decl {
                 x.push_str(&format!("<table:table-column table:number-columns-repeated=\"{n}\"/>"));
             }
+            let mut open: Vec<RowWrap> = vec![];
             for r in &s.rows {
+                for w in &r.open {
+                    x.push_str(&format!("<{}>", w.tag()));
+                    open.push(*w);
+                }
                 r.xml(&mut x);
+                for _ in 0..r.close {
+                    if let Some(w) = open.pop() {
+                        x.push_str(&format!("</{}>", w.tag()));
+                    }
+                }
             }
+            while let Some(w) = open.pop() {
+                x.push_str(&format!("</{}>", w.tag()));
+            }
+            x.push_str(&s.postlude);
             x.push_str("</table:table>");
         }
         if !self.named_ranges.is_empty() {
@@ -414,7 +537,20 @@ mod tests {
             ]),
             RowRun::new(vec![OdsCell::empty_run(1024)]).times(1_048_000),
         ];
+        let mut rows = rows;
+        rows[0].open = vec![RowWrap::HeaderRows];
+        rows[0].close = 1;
+        rows[1].open = vec![RowWrap::Group, RowWrap::Group];
+        rows[1].close = 1;
+        rows[2].open = vec![RowWrap::Rows];
+        rows[2].visibility = Some("collapse".into());
+        rows[2].soft_break_before = true;
+        rows[2].cells[1].annotation = Some("a note".into());
+        rows[2].cells[1].extra_attrs = " table:style-name=\"ce1\" calcext:value-type=\"boolean\"".into();
         let mut book = OdsBook::new(vec![OdsSheet::new("S 1", rows), OdsSheet::new("empty", vec![])]);
+        book.sheets[0].prelude = format!("<table:table-source table:mode=\"copy-all\" xlink:href=\"x.ods\"/>{}{}", shapes_xml("in a shape"), columns_xml(5, 9));
+        book.sheets[0].postlude = "<table:named-expressions><table:named-range table:name=\"loc\" table:cell-range-address=\"$'S 1'.$A$1\"/></table:named-expressions>".into();
+        book.sheets[0].extra_attrs = " table:protected=\"true\" table:print=\"false\"".into();
         book.sheets[1].display = Some(false);
         book.named_ranges.push(("nm".into(), "$'S 1'.$A$1".into()));
         let grid = book.sheets[0].grid();
